@@ -13,7 +13,7 @@ PROPERTY = "C14"
 FUNCTIONS = ["wannierberri.grid.tetrahedron.weights_tetra (py_func of the njit kernel; replay through the compiled kernel)",
              "TetraWeights.__init__/weights_all_band_groups/weight_1k1b", "TetraWeightsParal.weight_1k1b_priv",
              "get_bands_in_range/get_bands_below_range/get_bands_above_range (as called by weights_all_band_groups)"]
-BOUNDS = dict(quick=dict(corners="4 symbolic reals, all 24 input orders (der=0) / 4 orders (der 1..3), coincident and nearly coincident corners included "
+BOUNDS = dict(quick=dict(corners="4 symbolic reals, all 24 input orders (der=0 accurate branch) / 6 orders (polynomial branch) / 4 orders (der 1..3), coincident and nearly coincident corners included "
                          "(the code's own 1e-12 regularisation forks)", fermi="1 symbolic Fermi level per call (2 in the band-group cases)", der="0..3, accurate and polynomial branch",
                          groups="nb=2 bands x 1 k-point, degen_thresh symbolic", parallelepiped="centre + 8 corners totally ordered (3 centre positions), 12 tetrahedra"),
               thorough=dict(corners="all 24 orders for every der", fermi="as quick", der="0..3", groups="nb=2 (nb=3 did not finish within 50 min and is outside the claim)", parallelepiped="5 centre positions, 2 corner orders"))
@@ -255,7 +255,7 @@ def cases(tier, seed):
     few = [perms[0], perms[9], perms[17], perms[23]]
     for der in range(4):
         for acc in ((True, False) if der == 0 else (True,)):
-            for p in (perms if (der == 0 or not q) else few):
+            for p in (perms if ((der == 0 and acc) or not q) else (few + [perms[5], perms[14]] if der == 0 else few)):
                 out.append(Case(f"kernel der={der} accurate={acc} order={p}", case_kernel, dict(der=der, accurate=acc, perm=p), timeout=600 if q else 1800))
     for der in ((0, 1) if q else (0, 1, 2)):
         out.append(Case(f"groups nb=2 der={der}", case_groups, dict(nb=2, der=der), timeout=900 if q else 2400))
